@@ -33,7 +33,7 @@ let parse_op s : int * ns_ev =
   let a = split_commas (rest s) in
   match s.[0], a with
   | 'S', [sid; ty; mid; tok] ->
-      (int_of_string sid, NsSubmit { ns_con = (ty = "c"); ns_mid = zi mid; ns_tok = zi tok })
+      (int_of_string sid, NsSubmit { ns_con = (ty <> "n"); ns_mid = zi mid; ns_tok = zi tok })
   | 'A', [sid; mid] -> (int_of_string sid, NsAck (zi mid))
   | 'R', [sid; mid] -> (int_of_string sid, NsRst (zi mid))
   | 'T', [sid; mid] -> (int_of_string sid, NsTick (zi mid))
@@ -109,6 +109,7 @@ let ns toks =
       let wfail = ref false in        (* the next socket write of the context fails *)
       let hooks = ref [] in
       let pings = Array.make n 0 in
+      let observed = Array.make n false in
       let b = Buffer.create 256 in
       let step sid ev =
         let (x', outs) = nsf_step (fst cfgs.(sid)) { nsf_s = st.(sid); nsf_wfail = !wfail } (NsfEv ev) in
@@ -123,6 +124,21 @@ let ns toks =
             let (sid, mid, nm, nt) = parse_hook op in
             hooks := !hooks @ [(sid, mid, nm, nt, ref false)]; []
           end
+          else if op.[0] = 'O' || op.[0] = 'N' then begin
+            (* the peer observes /r on a server-side session (O: registration, answered at once;
+               N: the resource changes -> NON notification): these NONs are not messages of the
+               session machine and are never delayed by NSTART - one datagram (item Wo) each, as
+               long as the session is alive and established *)
+            let sid = int_of_string (rest op) in
+            let alive = not (fst cfgs.(sid)).ns_client && st.(sid).ns_open && st.(sid).ns_est in
+            if op.[0] = 'O' then (observed.(sid) <- alive; if alive then ["Wo"] else [])
+            else if not alive then []
+            else
+              (* the resource belongs to the context: every observing session gets its notification *)
+              List.concat (List.init n (fun k ->
+                let ok = not (fst cfgs.(k)).ns_client && st.(k).ns_open && st.(k).ns_est && observed.(k) in
+                if not ok then [] else if k = sid then ["Wo"] else [Printf.sprintf "Wo@%d" k]))
+          end
           else if op.[0] = 'G' then begin
             let sid = int_of_string (rest op) in
             if (fst cfgs.(sid)).ns_client && ping_can_go st.(sid) then begin
@@ -135,6 +151,7 @@ let ns toks =
           else begin
             let (sid, ev) = parse_op op in
             let outs = step sid ev in
+            (match ev with NsFail r when int_of_z r <> 4 -> observed.(sid) <- false | _ -> ());
             let is_b = op.[0] = 'B' in
             let outs = if not is_b then outs else
               List.filter_map (fun o -> match o with
@@ -159,7 +176,7 @@ let ns toks =
 let parse_items seen s : ns_out list =
   if s = "-" || s = "" then [] else
   List.filter_map (fun it ->
-    if it = "Wm" || it = "a" || it = "x" || it = "(" then None
+    if it = "Wm" || it = "Wo" || it = "a" || it = "x" || it = "(" then None
     else if it = "A" then Some NsAcc
     else if it = "X" then Some NsRef
     else if it.[0] = 'T' then begin
@@ -200,7 +217,7 @@ let build_traces n (toks : string list) wrap =
     match l with
     | [] -> ()
     | op :: items :: r ->
-        if is_err_op op || op.[0] = 'K' then ()
+        if is_err_op op || op.[0] = 'K' || op.[0] = 'O' || op.[0] = 'N' then ()
         else if op.[0] = 'H' then begin
           let (sid, mid, nm, nt) = parse_hook op in
           hooks := !hooks @ [(sid, mid, nm, nt, ref false)]
